@@ -25,14 +25,16 @@ RULE = ("(a) line soups of 1-12 lines drawn from a pool of keyword lines (every 
         "text with >=2 non-blank lines; distinct by hash of (entry point, text)." % LANGS)
 ASSUMPTIONS = [
     "a particular message is not demanded; for merely odd inputs no error at all is demanded",
-    "termination: a generous per-input watchdog (SIGALRM, 5 s); its firing is inconclusive, never a violation",
+    "termination is judged on CPU time, not on the wall clock: a parser call that uses up 5 CPU-seconds is repeated once with a limit of "
+    "40 CPU-seconds (inputs are a few hundred characters and parse in milliseconds); only a call that exhausts that as well is reported "
+    "as not terminating, a single firing is inconclusive; a wall-clock alarm around it is inconclusive as well",
 ]
-REQUIRED = {"discipline.only_parser_error": {"quick": 40000, "thorough": 3000000},
+REQUIRED = {"discipline.only_parser_error": {"quick": 40000, "thorough": 3000000}, "discipline.terminates": {"quick": 40000, "thorough": 3000000},
             "discipline.line_in_text": {"quick": 5000, "thorough": 500000},
             "fault.reported_at_injected_line": {"quick": 1500, "thorough": 100000},
             "mutation.only_parser_error": {"quick": 8000, "thorough": 500000},
             "reuse.parse_after_failure_same_as_fresh": {"quick": 200, "thorough": 15000}}
-REQUIRED_SEEN = {"file_list_shape": ["no_feature_file_before_a_feature"], "faulty_document_form": ["lf", "crlf", "cr", "file_bom", "file_bom_language_comment", "file_cr", "file_bom_blank_first"], "free_text_shape": ["keyword_lookalike_without_colon"], "fault_kind": ["second_feature", "text_after_steps", "examples_outside_outline", "and_without_predecessor",
+REQUIRED_SEEN = {"language_argument": ["empty_string", "omitted", "code"], "file_list_shape": ["no_feature_file_before_a_feature"], "faulty_document_form": ["lf", "crlf", "cr", "file_bom", "file_bom_language_comment", "file_cr", "file_bom_blank_first"], "free_text_shape": ["keyword_lookalike_without_colon"], "fault_kind": ["second_feature", "text_after_steps", "examples_outside_outline", "and_without_predecessor",
                                 "but_without_predecessor", "ragged_table_row", "malformed_tag", "second_background",
                                 "docstring_before_step", "table_before_step", "background_after_scenario", "tags_entry_malformed_tag",
                                 "tags_entry_tag_expected"],
@@ -59,11 +61,22 @@ def _alarm(signum, frame):
     raise Watchdog()
 
 
+CPU_LIMIT = 5.0            # CPU-seconds of this (single-threaded) worker for one parser call: first stage
+CPU_LIMIT_CONFIRM = 40.0   # second stage, for the same input once more
+CONFIRMATIONS = {"left": 2}
+
+
 def call(fn, *args, **kw):
-    """Returns ('ok', value) | ('parser_error', exc) | ('other', exc) | ('watchdog', None)."""
+    """Returns ('ok', value) | ('parser_error', exc) | ('other', exc) | ('watchdog', None).
+
+    Termination is judged on the CPU time the call consumes (ITIMER_VIRTUAL counts only while this process executes), so a loaded
+    machine cannot make it fire; a generous wall-clock alarm stays around it as the outer guard."""
     from behave.parser import ParserError
+    limit = kw.pop("_cpu_limit", 0.5 if CONFIRMATIONS.get("confirmed") else CPU_LIMIT)
     signal.signal(signal.SIGALRM, _alarm)
-    signal.alarm(5)
+    signal.signal(signal.SIGVTALRM, _alarm)
+    signal.alarm(int(limit * 6) + 60)
+    signal.setitimer(signal.ITIMER_VIRTUAL, limit)
     try:
         return "ok", fn(*args, **kw)
     except ParserError as ex:
@@ -73,7 +86,26 @@ def call(fn, *args, **kw):
     except Exception as ex:      # the observation this property is about
         return "other", ex
     finally:
+        signal.setitimer(signal.ITIMER_VIRTUAL, 0)
         signal.alarm(0)
+
+
+def judge_termination(mon, fn, args, witness):
+    """A call used up CPU_LIMIT CPU-seconds: the same input once more with CPU_LIMIT_CONFIRM.  Texts here are a few hundred
+    characters long and parse in milliseconds; one that burns 40 CPU-seconds does not terminate in any practical sense."""
+    if CONFIRMATIONS["left"] <= 0:
+        mon.note("parser watchdog fired again (not re-examined, inconclusive)")
+        return
+    CONFIRMATIONS["left"] -= 1
+    import time
+    t0 = time.process_time()
+    kind, _val = call(fn, *args, _cpu_limit=CPU_LIMIT_CONFIRM)
+    used = time.process_time() - t0
+    if kind == "watchdog" and used >= CPU_LIMIT_CONFIRM * 0.9:
+        mon.check("discipline.terminates", False, lambda: dict(witness(), cpu_seconds_used=round(used, 1), note="no result after that much CPU time"))
+        CONFIRMATIONS["confirmed"] = True      # (the rest of this worker's inputs get a short first stage: the verdict is in)
+    else:
+        mon.note("parser watchdog fired once, the repetition finished after %.1f CPU-seconds (inconclusive)" % used)
 
 
 def entry(P, name):
@@ -87,16 +119,18 @@ def check_text(mon, P, ep, text, lang=None, monitor="discipline", extra=None):
     if ep == "tags":
         kind, val = call(fn, text)
     else:
-        kind, val = call(fn, text, lang) if lang else call(fn, text)
+        kind, val = call(fn, text, lang) if lang is not None else call(fn, text)
+        mon.seen("language_argument", "empty_string" if lang == "" else ("omitted" if lang is None else "code"))
     mon.seen("entry_point", ep)
     mon.seen("outcome", "%s/%s" % (ep, kind))
     nonblank = len([l for l in text.splitlines() if l.strip()])
     mon.case((ep, lang, text), nonblank >= 2)
-    if kind == "watchdog":
-        mon.note("parser watchdog fired for an input of %d lines (inconclusive)" % nlines)
-        mon.count("watchdog")
-        return kind, val
     W = lambda **k: dict(entry_point=ep, language=lang, text=text, **dict(extra or {}, **k))
+    if kind == "watchdog":
+        mon.count("watchdog")
+        judge_termination(mon, fn, (text,) if (ep == "tags" or lang is None) else (text, lang), W)
+        return kind, val
+    mon.check("discipline.terminates", True)
     mon.check(monitor + ".only_parser_error", kind != "other",
               lambda: W(exception=repr(val), exception_type=type(val).__name__, where=where_of(val)))
     if kind == "parser_error":
@@ -148,6 +182,9 @@ def line_pool(kws, rng):
     pool += ["@tag", "@a @b", "  @a @b # comment", "@a b", "@", "@ a", "@@x", "x @a", "@a\t@b", "@a#b"]
     pool += ["| a | b |", "| 1 | 2 |", "| 1 |", "| 1 | 2 | 3 |", "|", "||", "| a | b", "  | x \\| y | z |", "| \\", "|a|b|"]
     pool += ['"""', "'''", '  """', '"""text', "   '''", '""" trailing', 'x """']
+    # rows whose closing pipe is missing or followed by a comment, with long cells (a URL, a checksum, a path)
+    pool += ["| https://example.org/reports/2024/quarterly-summary.html?lang=en&format=pdf", "| 3f786850e387550fdab836ed7e6dc881de23001b | ok  # sha1 of the file",
+             "  | /var/lib/application/data/cache/objects/ab/cdef0123456789.bin"]
     pool += ["# comment", "#", "# language: en", "# language: de", "# language: zz", "# language:", "#language:fr", "# Language: ru",
              "  # language: en", "# language: {de}", "@fixture.{name} notatag", "@t{0} @u{}", "  {\"k\": 1}", "# language: DE", "# language: En", "# language: zh-cn", "# language: EN-PIRATE", "# language: de "]
     pool += ["free text", "  indented text", "Feature", "Scenario", "Given", "And", "* ", "*", ":", "::", "\t", "   ", "",
@@ -169,7 +206,8 @@ def soups(mon, P, rng, n, i18n):
         if ep == "tags":
             text = rng.choice(["@tag", "@a @b", "@a b", " ", "", "x", "@a\n@b", "@a # c", "  @a", "\n", "@a\nb", "@", "# only comment"]) \
                 if rng.random() < 0.7 else text
-        check_text(mon, P, ep, text, lang if ep != "tags" and rng.random() < 0.7 else None)
+        # the language argument: a code, omitted, or the empty string (what an empty 'lang =' setting hands over: the default language)
+        check_text(mon, P, ep, text, (lang if rng.random() < 0.85 else "") if ep != "tags" and rng.random() < 0.7 else None)
 
 
 def mutations(mon, P, rng, ndocs, i18n):
